@@ -89,3 +89,48 @@ def taken(g, stmt, env, fn=None, ignore=lambda test: False):
         if bool(ev(test, env, fn)) != pol:
             return False
     return True
+
+
+def run(g, env, fn=None, max_steps=400):
+    """Walk the CFG of a small function from its entry under `env` (atoms -> values): tests are folded and the
+    matching edge is followed, assignments to plain local names update the environment, every other simple statement
+    is skipped (no effects are modelled).  Returns ("return", value) / ("raise", stmt) / ("fall", None).
+    Raises Unknown for loops over unknown iterables, with-blocks are entered, try bodies are followed without
+    exceptions."""
+    env = dict(env)
+    n = g.entry
+    steps = 0
+    while True:
+        steps += 1
+        if steps > max_steps:
+            raise Unknown("path too long (loop?)")
+        node = g.nodes[n]
+        if n == g.exit:
+            return ("fall", None)
+        if n == g.xexit:
+            return ("raise", None)
+        a = node.ast
+        if node.kind == "test":
+            v = bool(ev(a.test, env, None))
+            nxt = g.label_succ(n, "T" if v else "F")
+            if not nxt:
+                raise Unknown("constant-folded branch")
+            n = nxt[0]
+            continue
+        if node.kind == "for":
+            raise Unknown("for loop")
+        if node.kind == "stmt" and isinstance(a, ast.Return):
+            return ("return", ev(a.value, env, None) if a.value is not None else None)
+        if node.kind == "stmt" and isinstance(a, ast.Raise):
+            return ("raise", a)
+        if node.kind == "stmt" and isinstance(a, ast.Assign) and len(a.targets) == 1 and isinstance(a.targets[0], ast.Name):
+            try:
+                env[a.targets[0].id] = ev(a.value, env, None)
+            except Unknown:
+                env.pop(a.targets[0].id, None)
+        nxt = [t for (t, lab) in node.succ if lab != "exc"]
+        if not nxt:
+            nxt = [t for (t, lab) in node.succ]
+        if not nxt:
+            return ("fall", None)
+        n = nxt[0]
